@@ -53,22 +53,45 @@ Record store := mk_store {
   st_tbl : list (bytes * bytes);        (* tbl/<sum>    -> table bytes *)
   st_tblidx : list bytes;               (* tblidx/<sum> *)
   st_tblprof : list bytes;              (* tblsum/<sum> *)
-  st_com : list (bytes * bytes) }.      (* com/<sum>    -> commit bytes *)
+  st_com : list (bytes * bytes);        (* com/<sum>    -> commit bytes *)
+  st_sets : nat;                        (* number of Store.Set calls so far *)
+  st_gets : nat }.                      (* number of Store.Get calls so far *)
 
-Definition empty_store : store := mk_store [] [] [] [] [] [].
+Definition empty_store : store := mk_store [] [] [] [] [] [] 0 0.
+
+(** Store faults: the n-th Set fails, every Set on one key prefix fails
+    (0 blk/ 1 blkidx/ 2 tbl/ 3 tblidx/ 4 tblsum/ 5 com/), the n-th Get fails. *)
+Record faults := mk_faults {
+  f_set_at : option nat; f_set_kind : option N; f_get_at : option nat }.
+Definition no_faults : faults := mk_faults None None None.
+
+Definition set_ok (fp : faults) (kind : N) (st : store) : bool :=
+  negb (match f_set_at fp with Some n => Nat.eqb n (st_sets st) | None => false end
+        || match f_set_kind fp with Some k => N.eqb k kind | None => false end).
+Definition get_ok (fp : faults) (st : store) : bool :=
+  negb (match f_get_at fp with Some n => Nat.eqb n (st_gets st) | None => false end).
+Definition bump_gets (st : store) : store :=
+  mk_store (st_blk st) (st_blkidx st) (st_tbl st) (st_tblidx st) (st_tblprof st) (st_com st)
+           (st_sets st) (S (st_gets st)).
 
 Definition add_blk (st : store) k v :=
-  mk_store ((k, v) :: st_blk st) (st_blkidx st) (st_tbl st) (st_tblidx st) (st_tblprof st) (st_com st).
+  mk_store ((k, v) :: st_blk st) (st_blkidx st) (st_tbl st) (st_tblidx st) (st_tblprof st) (st_com st)
+           (S (st_sets st)) (st_gets st).
 Definition add_blkidx (st : store) k :=
-  mk_store (st_blk st) (k :: st_blkidx st) (st_tbl st) (st_tblidx st) (st_tblprof st) (st_com st).
+  mk_store (st_blk st) (k :: st_blkidx st) (st_tbl st) (st_tblidx st) (st_tblprof st) (st_com st)
+           (S (st_sets st)) (st_gets st).
 Definition add_tbl (st : store) k v :=
-  mk_store (st_blk st) (st_blkidx st) ((k, v) :: st_tbl st) (st_tblidx st) (st_tblprof st) (st_com st).
+  mk_store (st_blk st) (st_blkidx st) ((k, v) :: st_tbl st) (st_tblidx st) (st_tblprof st) (st_com st)
+           (S (st_sets st)) (st_gets st).
 Definition add_tblidx (st : store) k :=
-  mk_store (st_blk st) (st_blkidx st) (st_tbl st) (k :: st_tblidx st) (st_tblprof st) (st_com st).
+  mk_store (st_blk st) (st_blkidx st) (st_tbl st) (k :: st_tblidx st) (st_tblprof st) (st_com st)
+           (S (st_sets st)) (st_gets st).
 Definition add_tblprof (st : store) k :=
-  mk_store (st_blk st) (st_blkidx st) (st_tbl st) (st_tblidx st) (k :: st_tblprof st) (st_com st).
+  mk_store (st_blk st) (st_blkidx st) (st_tbl st) (st_tblidx st) (k :: st_tblprof st) (st_com st)
+           (S (st_sets st)) (st_gets st).
 Definition add_com (st : store) k v :=
-  mk_store (st_blk st) (st_blkidx st) (st_tbl st) (st_tblidx st) (st_tblprof st) ((k, v) :: st_com st).
+  mk_store (st_blk st) (st_blkidx st) (st_tbl st) (st_tblidx st) (st_tblprof st) ((k, v) :: st_com st)
+           (S (st_sets st)) (st_gets st).
 
 (** running a decoder on a complete byte slice (bytes.NewReader(b)) *)
 Definition dec_on {A} (p : nat -> prog A) (b : bytes) : res A * N :=
@@ -81,6 +104,7 @@ Section Receive.
   Variable parse_int : bytes -> option Z.
   Variable parse_tz : bytes -> option Z.
   Variable pc : precap.
+  Variable fp : faults.
 
   Definition s2_charge (b : bytes) : N := match s2_decoded_len b with Some n => n | None => 0 end.
 
@@ -94,22 +118,26 @@ Section Receive.
     | None => (Err COther, st, m)
     | Some content =>
         match validate_block content with
-        | Ok _ => (Ok tt, add_blk st (H content) b, m + N.of_nat (length b))
+        | Ok _ =>
+            if set_ok fp 0 st then (Ok tt, add_blk st (H content) b, m + N.of_nat (length b))
+            else (Err COther, st, m)                       (* Store.Set failed *)
         | Err e => (Err e, st, m)
         | Panic => (Panic, st, m)
         end
     end.
 
-  (** objects.GetBlock *)
+  (** objects.GetBlock (the caller counts the Store.Get: [bump_gets]) *)
   Definition get_block (st : store) (sum : bytes) : res (list (list bytes)) * N :=
-    match lookup (st_blk st) sum with
-    | None => (Err COther, 0)
-    | Some comp =>
-        match unz comp with
-        | None => (Err COther, s2_charge comp)
-        | Some dst => let '(r, m) := dec_on (block_read pc) dst in (r, s2_charge comp + m)
-        end
-    end.
+    if get_ok fp st then
+      match lookup (st_blk st) sum with
+      | None => (Err COther, 0)
+      | Some comp =>
+          match unz comp with
+          | None => (Err COther, s2_charge comp)
+          | Some dst => let '(r, m) := dec_on (block_read pc) dst in (r, s2_charge comp + m)
+          end
+      end
+    else (Err COther, 0).                                  (* Store.Get failed *)
 
   Definition widths_ok (ncols : nat) (blk : list (list bytes)) : bool :=
     forallb (fun row => (length row =? ncols)%nat) blk.
@@ -120,6 +148,7 @@ Section Receive.
     | [] => (Ok tt, st, m)
     | sum :: blocks' =>
         let '(rb, mb) := get_block st sum in
+        let st := bump_gets st in
         let m := m + mb in
         match rb with
         | Err _ => (Err COther, st, m)
@@ -130,13 +159,15 @@ Section Receive.
             | _ :: _ =>
                 if widths_ok (length (tb_columns tbl)) blk then
                   let isum := idx_sum sum (tb_pk tbl) in
-                  let st' := add_blkidx st isum in         (* SaveBlockIndex, before the comparison *)
-                  match idx (tb_indices tbl) i with        (* tbl.BlockIndices[i] *)
-                  | Ok x => if beqb isum x then index_blocks st' tbl blocks' (S i) m
-                            else (Err COther, st', m)
-                  | Err e => (Err e, st', m)
-                  | Panic => (Panic, st', m)
-                  end
+                  if set_ok fp 1 st then
+                    let st' := add_blkidx st isum in       (* SaveBlockIndex, before the comparison *)
+                    match idx (tb_indices tbl) i with      (* tbl.BlockIndices[i] *)
+                    | Ok x => if beqb isum x then index_blocks st' tbl blocks' (S i) m
+                              else (Err COther, st', m)
+                    | Err e => (Err e, st', m)
+                    | Panic => (Panic, st', m)
+                    end
+                  else (Err COther, st, m)                 (* Store.Set failed *)
                 else (Err COther, st, m)
             end
         end
@@ -148,28 +179,33 @@ Section Receive.
     else
       let '(r, st', m) := index_blocks st tbl (tb_blocks tbl) 0 0 in
       match r with
-      | Ok _ => (Ok tt, add_tblidx st' tsum, m)            (* SaveTableIndex *)
+      | Ok _ =>
+          if set_ok fp 3 st' then (Ok tt, add_tblidx st' tsum, m)   (* SaveTableIndex *)
+          else (Err COther, st', m)
       | _ => (r, st', m)
       end.
 
   (** ingest.ProfileTable: re-reads every block, then saves the profile *)
-  Fixpoint profile_blocks (st : store) (blocks : list bytes) (m : N) : res unit * N :=
+  Fixpoint profile_blocks (st : store) (blocks : list bytes) (m : N) : sres :=
     match blocks with
-    | [] => (Ok tt, m)
+    | [] => (Ok tt, st, m)
     | sum :: blocks' =>
         let '(rb, mb) := get_block st sum in
+        let st := bump_gets st in
         match rb with
         | Ok _ => profile_blocks st blocks' (m + mb)
-        | Err _ => (Err COther, m + mb)
-        | Panic => (Panic, m + mb)
+        | Err _ => (Err COther, st, m + mb)
+        | Panic => (Panic, st, m + mb)
         end
     end.
 
   Definition profile_table (st : store) (tsum : bytes) (tbl : table) : sres :=
-    let '(r, m) := profile_blocks st (tb_blocks tbl) 0 in
+    let '(r, st', m) := profile_blocks st (tb_blocks tbl) 0 in
     match r with
-    | Ok _ => (Ok tt, add_tblprof st tsum, m)
-    | _ => (r, st, m)
+    | Ok _ =>
+        if set_ok fp 4 st' then (Ok tt, add_tblprof st' tsum, m)    (* SaveTableProfile *)
+        else (Err COther, st', m)
+    | _ => (r, st', m)
     end.
 
   (** saveTable: index and profile first, the table object last *)
@@ -185,7 +221,9 @@ Section Receive.
         | Ok _ =>
             let '(r2, st2, m2) := profile_table st1 tsum tbl in
             match r2 with
-            | Ok _ => (Ok tt, add_tbl st2 tsum b, m0 + m1 + m2 + N.of_nat (length b))
+            | Ok _ =>
+                if set_ok fp 2 st2 then (Ok tt, add_tbl st2 tsum b, m0 + m1 + m2 + N.of_nat (length b))
+                else (Err COther, st2, m0 + m1 + m2)       (* SaveTable failed *)
             | _ => (r2, st2, m0 + m1 + m2)
             end
         | _ => (r1, st1, m0 + m1)
@@ -200,7 +238,8 @@ Section Receive.
     | Panic => (Panic, st, m0)
     | Ok c =>
         if forallb (has_key (st_com st)) (c_parents c)
-        then (Ok tt, add_com st (H b) b, m0 + N.of_nat (length b))
+        then (if set_ok fp 5 st then (Ok tt, add_com st (H b) b, m0 + N.of_nat (length b))
+              else (Err COther, st, m0))
         else (Err COther, st, m0)
     end.
 
@@ -239,6 +278,50 @@ Section Receive.
     | Err e => (Err e, st, m)
     | Panic => (Panic, st, m)
     end.
+
+  (** Persistence-layer readers (pkg/objects/persistence.go GetCommit, GetTable, GetBlock,
+      GetBlockIndex, GetTableIndex, GetTableProfile) applied to the value the store holds under
+      the key ([None] = key not found): (outcome, bytes allocated).
+      GetCommit / GetTable assign .Sum on the object that ReadCommitFrom / ReadTableFrom return
+      BEFORE looking at the error; [obj_on_err] says whether those return an object together
+      with an error ([true]: the code as it is; [false]: a nil object, and the assignment is a
+      nil dereference). *)
+  Definition set_sum {A} (obj_on_err : bool) (r : res A) : res A :=
+    match r with
+    | Ok a => Ok a
+    | Err e => if obj_on_err then Err e else Panic
+    | Panic => Panic
+    end.
+
+  Definition get_commit (obj_on_err : bool) (v : option bytes) : res commit * N :=
+    match v with
+    | None => (Err COther, 0)
+    | Some b => let '(r, m) := dec_on (commit_read parse_int parse_tz) b in (set_sum obj_on_err r, m)
+    end.
+
+  Definition get_table (obj_on_err : bool) (v : option bytes) : res table * N :=
+    match v with
+    | None => (Err COther, 0)
+    | Some b => let '(r, m) := dec_on (table_read pc) b in (set_sum obj_on_err r, m)
+    end.
+
+  (* s2.Decode, then the decoder *)
+  Definition load_s2 {A} (D : nat -> prog A) (v : option bytes) : res A * N :=
+    match v with
+    | None => (Err COther, 0)
+    | Some comp =>
+        match unz comp with
+        | None => (Err COther, s2_charge comp)
+        | Some dst => let '(r, m) := dec_on D dst in (r, s2_charge comp + m)
+        end
+    end.
+  Definition load_block := load_s2 (block_read pc).
+  Definition load_block_index := load_s2 blockindex_read.
+
+  Definition load_plain {A} (D : nat -> prog A) (v : option bytes) : res A * N :=
+    match v with None => (Err COther, 0) | Some b => dec_on D b end.
+  Definition get_table_index := load_plain (block_read pc).
+  Definition get_table_profile := load_plain (profile_read pc).
 
   (** Specification of C17 "nothing from a rejected object is left referenced":
       the store is CLOSED when every stored block decompresses and validates, every stored
